@@ -31,6 +31,8 @@ const NAMES_S: [&str; 8] = ["a", "b", "ab", "p::q", "p::r", "x", "p::::c", "p::q
 /// plain words that survive parsing and expansion unchanged (mode S)
 const WORDS_S: [&str; 14] = ["1", "v", "true", "false", "0", "no", "NO", "or", "--copy", "--prefix", "p::", "a", "p", "zz"];
 const FALSY: [&str; 6] = ["", "0", "false", "no", "FALSE", "No"];
+/// truthy values that a numeric or trimmed reading would take for falsy
+const NEAR_FALSY: [&str; 6] = ["0.0", "00", "-0", "+0", "0e0", "0x0"];
 const RESERVED: &str = "scope::unset::zz";
 const ON_ERROR_STATE: &str = "duckscriptsdk::command::on_error";
 
@@ -434,6 +436,8 @@ impl<'a> Gen<'a> {
         if self.rng.chance(3, 5) {
             let f = self.rng.pick_s(&FALSY);
             if self.script && f.is_empty() { "0".to_string() } else { f.to_string() }
+        } else if self.rng.chance(1, 4) {
+            self.rng.pick_s(&NEAR_FALSY).to_string()
         } else {
             self.value()
         }
